@@ -282,6 +282,8 @@ PROPS['C09'] = dict(
     technique='(A) symbolic-scalar execution of the real templates under checked STL + AddressSanitizer + UBSan on every solver-enumerated path; reachability of a zero divisor decided by the solver at every scalar division; (B) symbolic execution of the compiled IR with 64-bit symbolic indices/windows where every load/store is resolved by the solver against the live objects',
     only_kinds=_MEMKINDS,
     harnesses=[
+        dict(_SAN, asan_always=True, name='C09_lifetime', src='C09_lifetime.cpp', defs=dict(quick=[], thorough=[]),
+             functions=['by-value getters of temporaries (BSplineGenerator::getGrid, Grid::getData), supports/splines/results/operators/forms that outlive the objects they were built from (AddressSanitizer in both tiers)']),
         dict(_SAN, name='C09_eval', src='C02_eval.cpp', defs=dict(quick=['-DMAXN=4', '-DMAXO=2', '-DHISTN=3'], thorough=['-DMAXN=5', '-DMAXO=3', '-DHISTN=3']), functions=['Spline::operator()', 'Spline::findInterval', 'Support iterators/accessors']),
         dict(_SAN, name='C09_arith', src='C03_arith.cpp', defs=dict(quick=['-DMAXN=4', '-DMAXO=2', '-DLCN=3'], thorough=['-DMAXN=5', '-DMAXO=2', '-DLCN=4']), functions=['Spline arithmetic', 'linearCombination', 'internal::add/changearraysize']),
         dict(_SAN, name='C09_primops', src='C04_primops.cpp', defs=dict(quick=['-DMAXN=3', '-DMAXO=3', '-DMAXD=4'], thorough=['-DMAXN=4', '-DMAXO=4', '-DMAXD=5']), functions=['Derivative<n>::transform', 'Position<n>::transform']),
